@@ -470,6 +470,16 @@ func (c *c19cmp) flat(x *xFrame, got []jFlat) {
 			if g.Result != nil && g.Result.GasUsed != nil && uint64(*g.Result.GasUsed) != w.a.gas-w.a.left {
 				c.add("aspect-gasused", "Aspect frame %v: gasUsed %d; that execution used %d", w.addr, uint64(*g.Result.GasUsed), w.a.gas-w.a.left)
 			}
+			// the flat format drops the result of a failed frame unless it reverted (revert data is
+			// information): an Aspect execution that succeeded or reverted keeps gas used and output
+			if w.a.err == "" || w.a.err == "execution reverted" {
+				switch {
+				case g.Result == nil || g.Result.GasUsed == nil:
+					c.add("aspect-result", "Aspect frame %v (ended with %q) carries no result: its gas used (%d) and output are lost", w.addr, w.a.err, w.a.gas-w.a.left)
+				case g.Result.Output != nil && string(*g.Result.Output) != string(w.a.out) && (w.a.err == "" || len(w.a.out) > 0):
+					c.add("aspect-output", "Aspect frame %v: output %x; that execution returned %x", w.addr, []byte(*g.Result.Output), w.a.out)
+				}
+			}
 		} else {
 			if g.Action.Aspect != nil {
 				c.add("frame-kind", "frame %v is an Aspect frame; the stream has a call there", w.addr)
